@@ -1,12 +1,13 @@
 package mon
 
 import (
-	"time"
 	"context"
 	"errors"
 	"fmt"
 	"net/http"
 	"strings"
+	"sync"
+	"time"
 
 	"github.com/gookit/rux"
 	"github.com/gookit/rux/pkg/handlers"
@@ -146,13 +147,15 @@ func c09Requests(p *Program, t *T) []c09Req {
 }
 
 func runC09(e *Env) {
-	e.Rule = "registration programs (as C04) whose handlers are armed by request headers: the panicking request designates one handler (any global/group/route middleware, main handler, custom NotFound/NotAllowed handler; before or after its Next()) or the OnError handler, a panic value (string, error, int, struct) and an action before the panic (nothing, SetStatus, body write = committed, AddError); OnPanic hook absent / does nothing / status only / status+body / echoes the recovered value; history = healthy requests, the panicking one, an overlapping pair (a second request served by the same router while the first is parked inside a handler) and 3..10 further requests of all kinds on the same router (same pooled contexts). Oracle: hook present => no escape, hook ran once with the same value under CTXRecoverResult, no handler entered after the panic, writer log == C08 state machine over (ops before the panic, hook ops, end of request); hook absent => the same value propagates; always: every later request's outcome equals the outcome on a freshly built twin router. Also the in-chain recover middleware pkg/handlers.PanicsHandler: no escape, 500, healthy afterwards. Non-trivial: every history (each contains a panic); distinct by (program, plan). A third of the hooks serve another request on the same router before they answer (it must get its own context and behave as on a twin); a quarter of the panicking requests carry a cancelled or expired request context. More than half of the routers have an OnError handler that answers with an error page (after a panic it must not run, whatever errors were collected before)."
+	e.Rule = "registration programs (as C04) whose handlers are armed by request headers: the panicking request designates one handler (any global/group/route middleware, main handler, custom NotFound/NotAllowed handler; before or after its Next()) or the OnError handler, a panic value (string, error, int, struct) and an action before the panic (nothing, SetStatus, body write = committed, AddError); OnPanic hook absent / does nothing / status only / status+body / echoes the recovered value; history = healthy requests, the panicking one, an overlapping pair (a second request served by the same router while the first is parked inside a handler) and 3..10 further requests of all kinds on the same router (same pooled contexts). Oracle: hook present => no escape, hook ran once with the same value under CTXRecoverResult, no handler entered after the panic, writer log == C08 state machine over (ops before the panic, hook ops, end of request); hook absent => the same value propagates; always: every later request's outcome equals the outcome on a freshly built twin router. Also the in-chain recover middleware pkg/handlers.PanicsHandler: no escape, 500, healthy afterwards. Non-trivial: every history (each contains a panic); distinct by (program, plan). A third of the hooks serve another request on the same router before they answer (it must get its own context and behave as on a twin); a quarter of the panicking requests carry a cancelled or expired request context. More than half of the routers have an OnError handler that answers with an error page (after a panic it must not run, whatever errors were collected before). A quarter of the routers put a middleware in front that replaces c.Resp by a pass-through writer and restores it after Next() without defer (the panic skips the restore; the next request on that context must not notice). Part behind-request-logger: pkg/handlers.ConsoleLogger first and a panic on one of its ignored paths (/health, /status): the logger must not act as a recovery middleware."
 	e.Assumptions = []string{
 		"panic values are comparable (==)",
 		"the statement's 'no later handler runs' is checked for the OnPanic hook only; PanicsHandler lets the outer loop continue by design and is only checked for containment, status and router health",
 	}
 	e.RunCases("histories", e.N(12000, 2000000), 0, c09Case)
 	e.RunCases("redispatch-panic", e.N(2000, 200000), 0, c09RedispatchPanic)
+	e.RunCases("behind-request-logger", e.N(300, 5000), 0, c09BehindLogger)
+	e.Require("logger.checked", 250)
 	e.Require("redispatch_panic.checked", 1000)
 	e.Require("panic.in_global_mw", 200)
 	e.Require("panic.in_route_mw", 200)
@@ -165,6 +168,135 @@ func runC09(e *Env) {
 	e.Require("panic.after_commit", 200)
 	e.Require("followups.compared", 5000)
 	e.Require("followups.overlapping_pairs", 1000)
+}
+
+// c09PassThrough is the writer a wrapping middleware installs: it hands everything on.
+// Like a tracing or compressing writer it marks the response it worked on (a header, before the first
+// thing it hands on).
+type c09PassThrough struct {
+	http.ResponseWriter
+	tag    string
+	marked bool
+}
+
+func (w *c09PassThrough) mark() {
+	if !w.marked {
+		w.marked = true
+		w.Header().Add("X-Wrapped-For", w.tag)
+	}
+}
+func (w *c09PassThrough) WriteHeader(code int)        { w.mark(); w.ResponseWriter.WriteHeader(code) }
+func (w *c09PassThrough) Write(p []byte) (int, error) { w.mark(); return w.ResponseWriter.Write(p) }
+
+// the stock request logger keeps its ignore list in a package-level slice that grows with every
+// construction: one instance for the whole process, and only ignored paths are requested (it prints
+// a line for every other request)
+var (
+	c09LoggerOnce sync.Once
+	c09Logger     rux.HandlerFunc
+)
+
+// c09BehindLogger: pkg/handlers.ConsoleLogger is the first global middleware and a handler behind it
+// panics on one of the logger's ignored paths (/health, /status). The logger is not a recovery
+// middleware: with a hook the hook runs once, without one the panic reaches the caller unchanged.
+func c09BehindLogger(t *T) {
+	r := t.R
+	c09LoggerOnce.Do(func() { c09Logger = handlers.ConsoleLogger() })
+	path := pick(r, []string{"/health", "/status"})
+	val := pick(r, []string{"string", "error", "int", "struct", "abort"})
+	hook := chance(r, 2, 3)
+	site := pick(r, []string{"main", "mw-before-next", "mw-after-next"})
+	t.Describe(func() any {
+		return map[string]any{"path": path, "panic_value": val, "OnPanic_hook": hook, "panic_site": site}
+	})
+	t.AutoSample()
+	want := panicValue(val)
+	build := func() *rux.Router {
+		router := rux.New()
+		router.Use(c09Logger)
+		if hook {
+			router.OnPanic = func(c *rux.Context) {
+				rec := recOf(c)
+				v, _ := c.Get(rux.CTXRecoverResult)
+				rec.Ev("hook(%v)", v == want)
+				c.SetStatus(500)
+				_, _ = c.Resp.Write([]byte("hook-body"))
+			}
+		}
+		router.GET(path, func(c *rux.Context) {
+			recOf(c).Ev("enter(main)")
+			if site == "main" && c.Req.Header.Get("X-Panic") != "" {
+				recOf(c).Ev("panic(main)")
+				panic(want)
+			}
+			c.WriteString("ok")
+		}, func(c *rux.Context) {
+			recOf(c).Ev("enter(mw)")
+			if site == "mw-before-next" && c.Req.Header.Get("X-Panic") != "" {
+				recOf(c).Ev("panic(mw)")
+				panic(want)
+			}
+			c.Next()
+			if site == "mw-after-next" && c.Req.Header.Get("X-Panic") != "" {
+				recOf(c).Ev("panic(mw)")
+				panic(want)
+			}
+		})
+		return router
+	}
+	router, twin := build(), build()
+	req := NewReq("GET", path)
+	req.Header.Set("X-Panic", "1")
+	rec, pv, escaped := Serve(router, req)
+	t.Count("logger.checked", 1)
+	t.NonTrivial(fmt.Sprint(path, val, hook, site))
+	t.Tracef("escaped=%v value=%v events %v writer %s", escaped, pv, rec.Events, rec.CallLog())
+	if hook {
+		n := 0
+		for _, ev := range rec.Events {
+			if ev == "hook(true)" {
+				n++
+			}
+		}
+		if escaped {
+			t.Fail("panic-escaped-with-hook", "ConsoleLogger first, panic in %s on %s: an OnPanic hook is installed but the panic escaped ServeHTTP: %#v", site, path, pv)
+			return
+		}
+		if n != 1 {
+			t.Fail("hook-count", "ConsoleLogger first, panic in %s on %s: the OnPanic hook ran %d times with the recovered value, expected exactly once (events %v)", site, path, n, rec.Events)
+			return
+		}
+		wantBody := "hook-body"
+		if site == "mw-after-next" {
+			wantBody = "okhook-body" // the main handler had answered already: the status is out, the hook's bytes follow
+		}
+		wantStatus := 500
+		if site == "mw-after-next" {
+			wantStatus = 200
+		}
+		if rec.Status() != wantStatus || rec.Body.String() != wantBody || rec.NumWH() != 1 {
+			t.Fail("response-after-panic", "ConsoleLogger first, panic in %s on %s: expected status %d body %q, the writer saw %s", site, path, wantStatus, wantBody, rec.CallLog())
+			return
+		}
+	} else {
+		if !escaped {
+			t.Fail("panic-swallowed-without-hook", "ConsoleLogger first, panic in %s on %s, no OnPanic hook: the panic did not propagate to the caller of ServeHTTP (events %v, writer %s)", site, path, rec.Events, rec.CallLog())
+			return
+		}
+		if pv != want {
+			t.Fail("panic-value-changed", "the panic value reaching the caller is %#v, the handler panicked with %#v", pv, want)
+			return
+		}
+	}
+	// healthy afterwards
+	for i := 0; i < 2; i++ {
+		a, _, pa := Serve(router, NewReq("GET", path))
+		b, _, pb := Serve(twin, NewReq("GET", path))
+		if pa != pb || a.Outcome() != b.Outcome() {
+			t.Fail("followup-differs", "after the panic behind ConsoleLogger, GET %s differs from a fresh twin: %s vs %s", path, a.Outcome(), b.Outcome())
+			return
+		}
+	}
 }
 
 // c09RedispatchPanic: the panicking chain was reached through an internal re-dispatch
@@ -259,6 +391,10 @@ func c09Case(t *T) {
 	// pkg/handlers.Timeout as the outermost middleware (its own deadline never passes; a request whose
 	// context is already past its deadline makes it record 504 while the panic unwinds)
 	withTimeout := hookKind != "absent" && chance(r, 1, 4)
+	withRespWrapper := chance(r, 1, 4)
+	if withRespWrapper {
+		t.Count("panic.behind_resp_wrapping_middleware", 1)
+	}
 	var plan, histDesc []string
 	t.Describe(func() any {
 		d := p.Describe().(map[string]any)
@@ -267,6 +403,7 @@ func c09Case(t *T) {
 		d["OnError_panics"] = onErrorPanics
 		d["OnError_handler_installed"] = onErrorInstalled
 		d["Timeout_middleware_first"] = withTimeout
+		d["Resp_wrapping_middleware_first(restores c.Resp after Next, no defer)"] = withRespWrapper
 		d["plan"] = plan
 		d["history"] = histDesc
 		return d
@@ -275,6 +412,16 @@ func c09Case(t *T) {
 	build := func() *rux.Router {
 		var router *rux.Router
 		router = p.Build(func(rt *rux.Router) {
+			if withRespWrapper {
+				// a middleware that puts its own writer into c.Resp for the time of the request and
+				// takes it out again after Next() - not in a defer, a panic below skips that
+				rt.Use(func(c *rux.Context) {
+					orig := c.Resp
+					c.Resp = &c09PassThrough{ResponseWriter: orig, tag: c.Req.Method + " " + c.Req.URL.Path}
+					c.Next()
+					c.Resp = orig
+				})
+			}
 			if usePanicsHandler {
 				rt.Use(handlers.PanicsHandler())
 			}
